@@ -227,6 +227,11 @@ var jurisdictions = []string{"US", "US-WA", "US-WA 98225", "KE", "DE-BE", "AU-NS
 func (g *Gen) jurisdiction() string { return Pick(g.R, jurisdictions) }
 
 func (g *Gen) metadata() string {
+	if g.R.Chance(0.02) && !g.P.AvoidKnown {
+		// bytes that are not UTF-8: the wire format carries them, JSON cannot
+		g.W.Probe("text_field_with_invalid_utf8")
+		return "meta \xff\xfe"
+	}
 	return Pick(g.R, []string{"", "regen:13toVgf5UjYBz6J29gnPFrMkKVtTPSEhPKAkjK8kq1jwJNrgzhfeaQ8.rdf", "meta", "m" + fmt.Sprint(g.R.Intn(1000)), strings.Repeat("x", 250), strings.Repeat("x", 256), "méta \u2028 \"q\" \\ 日本", strings.Repeat("é", 128)})
 }
 
